@@ -67,7 +67,8 @@ class Token:
     quote: str = ""
     _embeded_data: Any = field(default=None, repr=False)
     _macro_end: tuple[int, int] | None = field(default=None, repr=False)
-    """(line, col) right after the source text that a macro replaced (set on the last token of an expansion)"""
+    """(line, col) right after the source text this token stands for, when `string` does not tell
+    (a string literal: escape sequences, line continuations; the last token of a macro expansion)"""
 
     # def __new__(cls: type["Token"], token_type: TokenType, line: int, col: int, string: str) -> "Token":
     #     return super().__new__(cls)
@@ -89,14 +90,12 @@ class Token:
 
         :return: Length of the string
         """
-        # if not self._macro_length:
-        return (
-            len(repr(self.string))
-            if self.token_type == TokenType.STRING
-            else len(self.string)
-        )
-        # else:
-        #     return self._macro_length
+        if self.token_type != TokenType.STRING:
+            return len(self.string)
+        if self._macro_end is not None and self._macro_end[0] == self.line:
+            # length of the literal as it is written in the source
+            return self._macro_end[1] - self.col
+        return len(repr(self.string))
 
     @property
     def end(self) -> tuple[int, int]:
@@ -316,12 +315,18 @@ class Tokenizer:
         quote = ""
         if self.quote == Quote.BACKTICK:
             quote = self.quote
+        end = None
+        if self.state == TokenType.STRING:
+            # The closing quote is the character that has just been read
+            # (the decoded string does not tell how long the literal is in the source)
+            end = (self.line, self.col + 1)
         new_token = Token(
             self.state,
             self.token_pos.line,
             self.token_pos.col,
             self.token_str,
             quote=quote,
+            _macro_end=end,
         )
         if (
             new_token.token_type == TokenType.KEYWORD
